@@ -959,7 +959,7 @@ FORMS_REP_SMALL = [FORM_BY_NAME[n] for n in REP_SMALL_NAMES]
 # operator-only sub-grammar (thorough depth 3)
 OPS_NAMES = ["bin:+", "bin:-", "bin:*", "bin:%", "bin:**", "bin:~", "cmp:<", "cmp:in", "and", "or", "un:-", "not"]
 FORMS_OPS = [FORM_BY_NAME[n] for n in OPS_NAMES]
-OPS3_NAMES = ["bin:+", "bin:*", "bin:**", "bin:~", "cmp:<", "and", "or", "un:-", "not"]
+OPS3_NAMES = ["bin:+", "bin:*", "bin:**", "cmp:<", "and", "un:-", "not"]
 FORMS_OPS3 = [FORM_BY_NAME[n] for n in OPS3_NAMES]
 
 LEAF = None  # a hole in a shape
